@@ -105,3 +105,28 @@ func AssumeValue(L ExprPred, v int64) AssumeFn {
 		return Unknown
 	}
 }
+
+// HasAtom2 requires that fn contains a condition atom recognised by pred.
+func HasAtom2(r *Run, fn, what string, pred ExprPred) {
+	f := r.Fn(fn)
+	if f == nil {
+		return
+	}
+	c := f.Ctx()
+	found := token.NoPos
+	for _, n := range f.Graph().Nodes {
+		if e, ok := n.Ast.(ast.Expr); ok {
+			walkAtoms(e, func(a ast.Expr) {
+				if pred(c, a) {
+					found = a.Pos()
+				}
+			})
+		}
+	}
+	label := f.Name + ": " + what
+	if found != token.NoPos {
+		r.OK(label, r.W.Pos(found), "condition present")
+	} else {
+		r.Fail(label, r.W.Pos(f.Node().Pos()), "no condition of the required form in the function")
+	}
+}
